@@ -26,6 +26,8 @@ type family struct {
 var families = map[string]family{
 	"c01": {name: "c01", wFeedCall: 6, wFeedNote: 3, wFeedBatch: 8, wFeedInvalid: 4, wFeedReply: 1, wFeedRaw: 1, wGate: 12, wBuiltin: 1,
 		idPool: []string{"1", "2", "3", `"a"`, "4", "5"}, Ks: []int{1, 2, 3, 8}, push: []bool{false, false, true}, builtin: []bool{true, false}, steps: 18},
+	"c02": {name: "c02", wFeedCall: 3, wFeedNote: 2, wFeedBatch: 8, wFeedInvalid: 12, wFeedReply: 3, wFeedRaw: 4, wGate: 10, wBuiltin: 1,
+		idPool: []string{"1", "2", `"a"`, "0", "-1", "1.5", "1e3", `""`, `"\u0031"`}, Ks: []int{1, 3}, push: []bool{false, true}, builtin: []bool{true, false}, steps: 20},
 	"c03": {name: "c03", wFeedCall: 5, wFeedNote: 8, wFeedBatch: 6, wFeedInvalid: 1, wGate: 12, wCancel: 1, wPush: 1,
 		idPool: []string{"1", "2", "3", "4", "5", "6"}, Ks: []int{1, 2, 4, 8}, push: []bool{false, true}, builtin: []bool{true}, steps: 20},
 	"c06": {name: "c06", wFeedCall: 4, wFeedNote: 2, wFeedBatch: 10, wGate: 12, wCancel: 4, wBuiltin: 2,
